@@ -156,3 +156,9 @@ VARIANTS += [
          [(CB, "        for macro in macros.values():\n            check_subcircuit_nesting(macro.body, self.subcircuit_memo)\n", "")],
          ("*", "Builder.build_circuit:assembled-nesting:macros"), ("C17",)),
 ]
+
+VARIANTS += [
+    fire("r12-expander-normaliser-float-only",
+         [(EM, "    if isinstance(value, bool):\n        return int(value)\n    if isinstance(value, float) and float(value) == int(value):", "    if isinstance(value, float) and float(value) == int(value):")],
+         ("C04.17", "filter_float:bool"), ("C04",)),
+]
